@@ -211,6 +211,8 @@ class InlineTranslator:
                     continue
                 if arg.ast_type == ASTType.Variable and (arg.name == "_" or arg not in tuple_vars):
                     return atom
+                if arg.ast_type != ASTType.Variable and collect_ast(arg, "Variable"):
+                    return atom  # h(V+0,F): the instance of the inlined rule is not identified by the tuple
             # replace headrule body aggregate with inlined version of the conditions
             new_elements = self.compute_new_body_elements(rule, replace_cond, replace_elem, agg, atom, unique_vars)
             # the unfolded tuples are longer than the replaced one and may now meet the tuple of another element
